@@ -75,7 +75,7 @@ def main(chk: Check) -> None:
                                script=script, fe_l=fe, es_l=list(es)))
     ngrid = len(records)
     # off-grid float histories (seeded): arbitrary rates, thresholds placed near the rates
-    nfloat = 4000 if thorough else 600
+    nfloat = 6000 if thorough else 2000
     for _ in range(nfloat):
         mc = rng.randint(1, 12)
         rates = []
